@@ -313,4 +313,6 @@ func TestC04(t *testing.T) {
 	s := hx.Begin(t, "C04")
 	defer s.End()
 	hx.Run(s, c04Export, s.N(3000, 30000))
+	hx.Run(s, c04Qualified, s.N(800, 8000))
+	hx.Run(s, c04Any, s.N(1500, 15000))
 }
